@@ -235,6 +235,12 @@ func (ctx *Context) fixStackMerge(pos []int) {
 				i++
 			}
 		}
+		for i < len(pos) { // merged glyphs behind the last input glyph
+			if i > 0 {
+				delta++
+			}
+			i++
+		}
 		for j < len(in) {
 			in[j] -= delta
 			j++
